@@ -476,6 +476,26 @@ func (p *Program) loopMods(x *Exec, fr *Frame, h *ssa.BasicBlock) ([]string, []s
 	}
 	body := fr.loops.body[h]
 	d := &directInfo{heaps: map[string]bool{}, fresh: map[string]bool{}}
+	cellFields := map[string]map[int]bool{}
+	cellWhole := map[string]bool{}
+	defer func() {
+		if fr.loopFieldMods == nil {
+			fr.loopFieldMods = map[*ssa.BasicBlock]map[string][]int{}
+		}
+		m := map[string][]int{}
+		for cv, fs := range cellFields {
+			if cellWhole[cv] {
+				continue
+			}
+			var idx []int
+			for i := range fs {
+				idx = append(idx, i)
+			}
+			sort.Ints(idx)
+			m[cv] = idx
+		}
+		fr.loopFieldMods[h] = m
+	}()
 	for b := range body {
 		for _, in := range b.Instrs {
 			switch in := in.(type) {
@@ -483,7 +503,18 @@ func (p *Program) loopMods(x *Exec, fr *Frame, h *ssa.BasicBlock) ([]string, []s
 				a, hs := p.addrRoot(in.Addr)
 				if a != nil {
 					if fr.isCell[a] {
-						set[x.cellVar(fr, a)] = true
+						cv := x.cellVar(fr, a)
+						set[cv] = true
+						// field-granular havoc: a loop that only assigns some top-level fields of a struct variable
+						// leaves the other fields as they were
+						if fi := topFieldOf(in.Addr, a); fi >= 0 {
+							if cellFields[cv] == nil {
+								cellFields[cv] = map[int]bool{}
+							}
+							cellFields[cv][fi] = true
+						} else {
+							cellWhole[cv] = true
+						}
 					} else {
 						_, hs2 := p.addrRootHeap(in.Addr)
 						if body[a.Block()] {
@@ -500,6 +531,7 @@ func (p *Program) loopMods(x *Exec, fr *Frame, h *ssa.BasicBlock) ([]string, []s
 			case *ssa.Alloc:
 				if fr.isCell[in] {
 					set[x.cellVar(fr, in)] = true
+					cellWhole[x.cellVar(fr, in)] = true
 				} else {
 					addFresh(p.pointeeHeaps(deref(in.Type())))
 				}
@@ -567,4 +599,25 @@ func (p *Program) loopMods(x *Exec, fr *Frame, h *ssa.BasicBlock) ([]string, []s
 		delete(fresh, h)
 	}
 	return sortedSet(set), sortedSet(fresh)
+}
+
+// topFieldOf: addr is &a.f or &a.f.g... for the struct variable a; returns the index of the top-level field f, or -1.
+func topFieldOf(addr ssa.Value, a *ssa.Alloc) int {
+	fa, ok := addr.(*ssa.FieldAddr)
+	if !ok {
+		return -1
+	}
+	for {
+		if fa.X == ssa.Value(a) {
+			if _, isStruct := deref(a.Type()).Underlying().(*types.Struct); isStruct {
+				return fa.Field
+			}
+			return -1
+		}
+		inner, ok := fa.X.(*ssa.FieldAddr)
+		if !ok {
+			return -1
+		}
+		fa = inner
+	}
 }
